@@ -657,4 +657,48 @@ theorem update_io (env : Env F C) (s : St F C) (file : Option (Option Spec)) (fi
       obtain ⟨spec, e, ea⟩ := io3.2 p a hm
       left; exact ⟨spec, e, ea⟩
 
+
+-- ------------------------------------------------------------------------------------------ what keeps a flow open
+theorem configure_keep (env : Env F C) (s : St F C) (uf ut : Bool) (hw : W s) (ho : s.optFile.isSome = true) :
+    (configure env s uf ut).1.active = s.active ∧
+    (s.stream.isSome = true → (configure env s uf ut).1.stream.isSome = true) := by
+  have cw := configure_W env s uf ut hw
+  rcases configure_cases env s uf ut with ⟨h1, h⟩ | ⟨s1, h1, h2, h⟩ | ⟨s1, h1, h2, h3, h⟩ | ⟨s1, spec, h1, h2, h3, h4, h⟩ |
+      ⟨s1, spec, s2, io, h1, h2, h3, h4, h5, h⟩ | ⟨s1, spec, s2, io, h1, h2, h3, h4, h5, h⟩
+  · rw [h]; exact ⟨rfl, id⟩
+  · obtain ⟨a1, a2, a3, a4, a5, _⟩ := filtStep_some s s1 ut h1
+    rw [h]; exact ⟨a5, by rw [a3]; exact id⟩
+  · obtain ⟨a1, _⟩ := filtStep_some s s1 ut h1
+    rw [a1] at h3; rw [h3] at ho; simp at ho
+  · obtain ⟨a1, a2, a3, a4, a5, _⟩ := filtStep_some s s1 ut h1
+    rw [h]; exact ⟨a5, by rw [a3]; exact id⟩
+  · obtain ⟨a1, a2, a3, a4, a5, _⟩ := filtStep_some s s1 ut h1
+    obtain ⟨_, _, _, b4, _⟩ := rotate_facts env s1 s2 spec io h4
+    rw [h]; exact ⟨b4.trans a5, fun _ => rfl⟩
+  · exfalso; apply cw.2.1; rw [h]
+
+theorem update_keep (env : Env F C) (s : St F C) (file : Option (Option Spec)) (filt : Option (FiltOpt F))
+    (hi : Inv s) (hf : file ≠ some none) (hs : s.stream.isSome = true) :
+    (update env s file filt).1.active = s.active ∧ (update env s file filt).1.stream.isSome = true := by
+  have hw0 : W (optSet s file filt) := W_of_eq hi.toW rfl rfl rfl
+  have ho0 : (optSet s file filt).optFile.isSome = true := by
+    cases hq : file with
+    | none => simp [optSet]; exact hi.opt hs
+    | some v =>
+      cases v with
+      | none => exact absurd hq hf
+      | some spec => simp [optSet]
+  have k1 := configure_keep env (optSet s file filt) file.isSome filt.isSome hw0 ho0
+  rcases update_cases env s file filt with ⟨_, h⟩ | ⟨_, _, h⟩ | ⟨_, _, h⟩ | ⟨_, hr, h⟩
+  · rw [h]; exact ⟨rfl, hs⟩
+  · rw [h]; exact ⟨k1.1, k1.2 hs⟩
+  · rw [h]; exact ⟨k1.1, k1.2 hs⟩
+  · rw [h]
+    have hw2 : W (optBack s (configure env (optSet s file filt) file.isSome filt.isSome).1) :=
+      W_of_eq (configure_W env (optSet s file filt) file.isSome filt.isSome hw0).1 rfl rfl rfl
+    have ho2 : (optBack s (configure env (optSet s file filt) file.isSome filt.isSome).1).optFile.isSome = true :=
+      hi.opt hs
+    have k3 := configure_keep env _ file.isSome filt.isSome hw2 ho2
+    exact ⟨k3.1.trans k1.1, k3.2 (k1.2 hs)⟩
+
 end MitmVerif.Lemmas.C39
